@@ -135,6 +135,16 @@ CHECKS.update({
          'refused and no block name starts with the external prefix.',
          TRUSTED + '; automatic names of user classes whose class name itself starts with ext_ are not asserted either way (DESIGN section 7-10)', '6 C14'),
 })
+CHECKS.update({
+ 'C05': (MC, 'TLC model checking of Init.tla (operational Run() = declarative CanInit() for every configuration of 2 blocks in both creation orders; source order; steps before events) + sharpness self-test + configurations x all creation orders run on the real simulator, batch trace validation',
+         'Init.tla defines the three initialisation phases with event cascades (SetOut / Event / Restore / Regular, asynchronous completions) and, independently, which blocks can be initialised at all (CanInit, order independent); '
+         'TLC proves Success(Run(cfg, order)) = CanInit(cfg) and AtMostOnce / SourceOrder / StepsBeforeEvent for all 25 088 two-block configurations x both orders and must find the deviation "events handled without the pending steps". '
+         'Probe blocks generated from 1..4-block configurations (saved state ok / no-init / raising / absent, asynchronous routine ok / raising / hanging with timeout 0 or positive, regular routine, initdef, initialising output events, '
+         'a combinational block whose first evaluation may fail, optional block with asynchronous clean-up) start in every creation order; each routine call and assignment is validated line by line (restore first, async only while '
+         'uninitialised with a positive timeout after the saved states, initdef only while uninitialised, handler only after the synchronous steps) and wait_init() must return iff CanInit and the first evaluation succeeds, with all '
+         'outputs equal to the predicted sources, the simulation running, within the largest init_timeout; otherwise it must raise with the simulation terminated.',
+         TRUSTED + '; asynchronous routines end either before every timeout or never (how far a routine with a short timeout may overrun while another one is awaited is unspecified); completion exactly at the timeout is excluded', '6 C05'),
+})
 NA = {}
 ALL = [f'C{n:02d}' for n in range(1, 21)]
 
